@@ -91,6 +91,7 @@ var poolNames = []string{
 	"t-empty", "t-ints", "t-nested-deep", "d-empty", "d-str", "d-int", "d-cyclic", "d-frozen", "d-iterating",
 	"set-ints", "set-frozen", "range-small", "range-huge", "range-neg", "struct", "struct-cyclic", "fn-lambda", "fn-fails", "fn-recursive", "builtin-len", "bound-append",
 	"time", "duration", "module-json",
+	"iter-codepoints", "iter-elems", "iter-bytes-elems", "iter-ords", "iter-empty", "d-keys-view", "l-one", "s-digits", "t-mixed",
 }
 
 var helperFns = func() starlark.StringDict {
@@ -292,6 +293,24 @@ func poolValue(name string) starlark.Value {
 		return stime.Duration(90 * time.Minute)
 	case "module-json":
 		return sjson.Module
+	case "iter-codepoints": // iterables of unknown length
+		return big("\"ab\".codepoints()")
+	case "iter-elems":
+		return big("\"a\".elems()")
+	case "iter-bytes-elems":
+		return big("b\"xyz\".elems()")
+	case "iter-ords":
+		return big("\"a\".codepoint_ords()")
+	case "iter-empty":
+		return big("\"\".codepoints()")
+	case "d-keys-view":
+		return big("{1: 2, 3: 4}.keys()")
+	case "l-one":
+		return starlark.NewList([]starlark.Value{starlark.MakeInt(5)})
+	case "s-digits":
+		return starlark.String("-0012")
+	case "t-mixed":
+		return starlark.Tuple{starlark.MakeInt(1), starlark.String("a"), starlark.None}
 	}
 	panic("unknown pool value " + name)
 }
@@ -412,7 +431,11 @@ func handle(req Request) (rep Reply) {
 			pre := starlark.StringDict{"CALLEE": fn, "ARGS": args, "KW": kw}
 			_, err = starlark.ExecFileOptions(&syntax.FileOptions{}, th, "call.star", "R = CALLEE(*ARGS, **KW)\n", pre)
 		} else {
-			_, err = starlark.Call(th, fn, args, kwargs)
+			var v starlark.Value
+			v, err = starlark.Call(th, fn, args, kwargs)
+			if err == nil {
+				useResult(v)
+			}
 		}
 		rep.Steps = th.ExecutionSteps()
 		if err == nil {
@@ -425,6 +448,36 @@ func handle(req Request) (rep Reply) {
 		return
 	}
 	return Reply{Outcome: "error", Msg: "bad request"}
+}
+
+// useResult does what a host does with a returned value: print it, hash it, compare it, freeze it.
+// A malformed value (e.g. a nil element) crashes here rather than at some later, unrelated point.
+func useResult(v starlark.Value) {
+	if v == nil {
+		panic("built-in returned a nil Value without an error")
+	}
+	if l, ok := v.(*starlark.List); ok && l.Len() > 50000 {
+		return
+	}
+	_ = v.Type()
+	_ = v.Truth()
+	if len(v.String()) > 1<<22 {
+		return
+	}
+	v.Hash()
+	starlark.Equal(v, v)
+	if it := starlark.Iterate(v); it != nil {
+		var x starlark.Value
+		for n := 0; n < 1000 && it.Next(&x); n++ {
+			if x == nil {
+				it.Done()
+				panic("iteration yields a nil Value")
+			}
+		}
+		it.Done()
+	}
+	v.Freeze()
+	_ = v.String()
 }
 
 func TestWorker(t *testing.T) {
@@ -810,7 +863,7 @@ func TestPropCalls(t *testing.T) {
 	if err := loadCallees(); err != nil {
 		t.Fatalf("cannot list callees: %v", err)
 	}
-	vk.Rapid(t, subCase, vk.N(12000, 150000), genCall)
+	vk.Rapid(t, subCase, vk.N(6000, 100000), genCall)
 }
 
 // Every callee with no argument and with each single pool value (exhaustive over callee x pool for arity <= 1).
@@ -837,6 +890,34 @@ func TestPropCallsArity1(t *testing.T) {
 				}
 				if !yield(Request{Kind: "call", Callee: c, Args: []string{p}, Budget: 100000, Recv: "mutable", Via: "api"}) {
 					return
+				}
+			}
+		}
+	})
+}
+
+// Every callee with every ordered pair of pool values (thorough: complete; quick: a seeded 1/200 slice).
+func TestPropCallsArity2(t *testing.T) {
+	defer worker.Recycle()
+	if err := loadCallees(); err != nil {
+		t.Fatalf("cannot list callees: %v", err)
+	}
+	vk.S.SetExhaustive("every-callee-x-every-ordered-pair-of-pool-values", vk.Thorough())
+	vk.Enum(t, subCase, func(yield func(Request) bool) {
+		i := 0
+		for _, c := range calleeNames {
+			for _, p := range poolNames {
+				for _, q := range poolNames {
+					i++
+					if !vk.Mine(i) {
+						continue
+					}
+					if !vk.Thorough() && (i/2+vk.Seed()*7)%200 != 0 {
+						continue
+					}
+					if !yield(Request{Kind: "call", Callee: c, Args: []string{p, q}, Budget: 100000, Recv: "mutable", Via: []string{"api", "source"}[i%2]}) {
+						return
+					}
 				}
 			}
 		}
